@@ -220,12 +220,22 @@ auto mft_pair(int /*x*/, int /*y*/) -> std::string
     return o.s;
 }
 
+// The TU is built twice (registry flags): -DC20_TYPES_PART=1 = pair obligations + tuple_cat + factories + forward,
+// -DC20_TYPES_PART=2 = tuple obligations.  Without the macro everything is in one binary.
+#if !defined(C20_TYPES_PART)
+    #define C20_TYPES_PART 0
+#endif
+
 template <typename T1, typename T2>
 void add_types2()
 {
+#if C20_TYPES_PART != 2
     add_family("types.pair" + tags<T1, T2>(), "types.pair", 1, 1, []<class L>(int x, int y) { return types_pair<L, T1, T2>(x, y); });
-    add_family("types.tuple" + tags<T1, T2>(), "types.tuple", 1, 1, []<class L>(int x, int y) { return types_tuple<L, T1, T2>(x, y); });
     add_family("types.make_from_tuple.pair" + tags<T1, T2>(), "types.pair", 1, 1, []<class L>(int x, int y) { return mft_pair<L, T1, T2>(x, y); });
+#endif
+#if C20_TYPES_PART != 1
+    add_family("types.tuple" + tags<T1, T2>(), "types.tuple", 1, 1, []<class L>(int x, int y) { return types_tuple<L, T1, T2>(x, y); });
+#endif
 }
 template <typename T1, typename... T2>
 void add_types_row()
@@ -235,7 +245,9 @@ void add_types_row()
 template <typename... E>
 void add_types_n()
 {
+#if C20_TYPES_PART != 1
     add_family("types.tuple" + tags<E...>(), "types.tuple", 1, 1, []<class L>(int x, int y) { return types_tuple<L, E...>(x, y); });
+#endif
 }
 
 void add_types()
@@ -484,8 +496,10 @@ void build()
     if (done) { return; }
     done = true;
     add_types();
+#if C20_TYPES_PART != 2
     add_cat_and_factories();
     add_forward();
+#endif
 }
 
 } // namespace
